@@ -24,7 +24,15 @@ CLAIM = dict(
     note="Trusts the reference model (two independent routes cross-checked at start-up: angle formulas vs. vector "
     "definitions, inverse pairs) and that behaviour between alphabet points is like at the points (no hidden branch "
     "in forms.py other than those the alphabets straddle).",
-    technique="exhaustive product over finite input alphabets on the real code vs. independent reference model",
+    technique="exhaustive product over finite input alphabets on the real code vs. independent reference model; explicit-state "
+    "exploration of all operation histories up to depth 3/4 for the derived quantities",
+)
+RULE_HISTORY = (
+    " History part: states = histories (sequences over {read infos, write by index, write by name, in-place form change, "
+    "in-place frame change, copy(), copy(form=)}) up to depth 3 (quick) / 4 (thorough) from every source form of 3/4 orbits, "
+    "each executed on freshly built objects; after the last operation the Infos of every live object (original and copies) "
+    "are compared with the defining relations evaluated on that object's current numbers. Distinct by construction "
+    "(different operation sequence or start); non-trivial = at least one operation."
 )
 RULE = (
     "cases = (orbit, source form S, target form T) for all orbits of the alphabet product and all ordered pairs, plus "
@@ -33,11 +41,13 @@ RULE = (
     "runs); to bound memory the non-trivial key is (part, orbit, S): the 9-10 targets / 17 attributes of one source "
     "form are counted under one key, every one of them is an evaluation."
 )
+RULE = RULE + RULE_HISTORY
 BOUNDS = {
     "quick": "4 bodies x 13 e x 5 i x 2 node x 2 perigee x 5 (ellipse) / 6 (hyperbola) anomalies: all 100/81 pairs, "
-    "setter, back conversion, infos in every source form; all 1000/729 walks on the sub-product with 2 bodies x 3 i",
+    "setter, back conversion, infos in every source form; all 1000/729 walks on the sub-product with 2 bodies x 3 i; "
+    "hyperbolic anomalies 0.5, -4, 20, +-1000, +-5000; Infos histories: 7 operations, depth <= 3, 3 orbits x every source form",
     "thorough": "full alphabets 4 bodies x 13 e x 5 i x 4 node x 4 perigee x 9 (ellipse) / 10 (hyperbola) anomalies "
-    "(40 000 orbits) for pairs/setter/back/infos and for all walks",
+    "(12 hyperbolic anomalies incl. +-1000, +-5000) for pairs/setter/back/infos and for all walks; Infos histories: depth <= 4, 4 orbits",
 }
 ASSUMPTIONS = [
     "element definitions are those documented in beyond/orbits/forms.py (equatorial spherical form, l = true longitude, "
@@ -511,8 +521,8 @@ def check_walks(orb, S, X, t, first=None):
 H_OPS = ["read", "idx", "name", "form", "frame", "copy", "copyform"]
 H_FRAMES = {"EME2000": "G50", "G50": "EME2000"}
 H_ORBITS = {
-    "quick": [("earth", 0.3, 0.9, 1.0, 0.7, 0.5), ("earth", 1.61, 2.2, 6.0, 5.5, -4.0)],
-    "thorough": [("earth", 0.3, 0.9, 1.0, 0.7, 0.5), ("earth", 1.61, 2.2, 6.0, 5.5, -4.0), ("earth", 0.01, 2.2, 3.5, 5.5, 3.3),
+    "quick": [("earth", 0.3, 0.9, 1.0, 0.7, 0.5), ("earth", 1.61, 2.2, 6.0, 5.5, -4.0), ("earth", 1e-4, 2.2, 3.5, 5.5, 3.3)],
+    "thorough": [("earth", 0.3, 0.9, 1.0, 0.7, 0.5), ("earth", 1.61, 2.2, 6.0, 5.5, -4.0), ("earth", 1e-4, 2.2, 3.5, 5.5, 3.3),
                  ("earth", 0.7, 0.01, 6.0, 0.7, -3.0)],
 }
 H_DEPTH = {"quick": 3, "thorough": 4}
@@ -587,7 +597,7 @@ def check_history(orb, S, ops, t):
         rv = fr.to_cart(form, arr, R["mu"])
         k = tb.cart_to_kep(rv, R["mu"])
         e, inc = k["e"], k["i"]
-        if not ((1e-4 <= e <= 0.99 or 1.001 <= e <= 20) and 0.01 <= inc <= math.pi - 0.01) or (e < 1) != (R["e"] < 1):
+        if not ((1e-4 * (1 - 1e-9) <= e <= 0.99 or 1.001 <= e <= 20) and 0.01 * (1 - 1e-9) <= inc <= math.pi - 0.01 * (1 - 1e-9)) or (e < 1) != (R["e"] < 1):
             t.exclude("history leaves the property's domain of e / i (or changes the type of conic)")
             continue
         conic = "ell" if e < 1 else "hyp"
@@ -608,10 +618,6 @@ def check_history(orb, S, ops, t):
         _compare_infos(t, o.infos, ref, conic, cond, body_r, c2, lambda name, kind: f"Infos/history/{cls}",
                        None, f"object #{j} ({d['role']}) after {list(ops)} from {S}; current form {form}, frame {o.frame.name}",
                        "history infos.")
-        # the Infos object handed out must describe the object it was asked from
-        if getattr(o.infos, "orb", o) is not o:
-            t.fail(f"Infos/history/{cls}", "infos describes the state it is read from", c2, "infos.orb is the object", "another object",
-                   f"object #{j} ({d['role']}) after {list(ops)}: infos.orb is not the object read")
     t.outcome(("hist", len(ops), R["conic"], tuple(sorted(set(ops)))))
 
 # ---------------------------------------------------------------------------
